@@ -1737,7 +1737,7 @@ func (w *Walker) rawPath(e ast.Expr, st *pstate, c *ctl) string {
 	switch x := e.(type) {
 	case *ast.SelectorExpr:
 		if sel := c.info.Selections[x]; sel != nil && sel.Kind() == types.FieldVal {
-			return w.rawPath(x.X, st, c) + "." + x.Sel.Name
+			return derefAddr(w.rawPath(x.X, st, c)) + "." + x.Sel.Name
 		}
 	case *ast.IndexExpr:
 		if tv, ok := c.info.Types[x.X]; ok && !tv.IsType() {
@@ -1746,6 +1746,9 @@ func (w *Walker) rawPath(e ast.Expr, st *pstate, c *ctl) string {
 			}
 		}
 	case *ast.StarExpr:
+		if b := w.rawPath(x.X, st, c); isAddrOfPath(b) {
+			return b[1:]
+		}
 		return "*" + w.rawPath(x.X, st, c)
 	case *ast.Ident:
 		if obj := c.info.Uses[x]; obj != nil {
@@ -1758,6 +1761,33 @@ func (w *Walker) rawPath(e ast.Expr, st *pstate, c *ctl) string {
 		}
 	}
 	return w.canon(e, st, c)
+}
+
+// isAddrOfPath reports whether a canonical string is the address of an access path (`&X.f.g`, what a local
+// bound by `p := &X.f.g` stands for), as opposed to the address of a fresh composite literal (`&T{…}@k`).
+func isAddrOfPath(s string) bool {
+	if !strings.HasPrefix(s, "&") || len(s) < 2 || s[1] == '&' {
+		return false
+	}
+	// a composite literal ends in '}' (plus its allocation and version suffixes); an access path never does
+	t := s
+	for {
+		i := strings.LastIndexAny(t, "@#")
+		if i < 0 || strings.Trim(t[i+1:], "0123456789") != "" {
+			break
+		}
+		t = t[:i]
+	}
+	return !strings.HasSuffix(t, "}")
+}
+
+// derefAddr: a field selected through a pointer that is the address of a path is a field of that path
+// ((&X.f).g is X.f.g), so that a local alias `p := &X.f` names the same storage as X.f.
+func derefAddr(s string) string {
+	if isAddrOfPath(s) {
+		return s[1:]
+	}
+	return s
 }
 
 func stripVersion(s string) string {
@@ -1883,6 +1913,9 @@ func (w *Walker) canon(e ast.Expr, st *pstate, c *ctl) string {
 		}
 		return w.canon(x.X, st, c)
 	case *ast.StarExpr:
+		if b := w.rawPath(x.X, st, c); isAddrOfPath(b) {
+			return w.versioned(b[1:], st)
+		}
 		return "*" + w.canon(x.X, st, c)
 	case *ast.UnaryExpr:
 		if x.Op == token.ARROW {
